@@ -53,6 +53,31 @@ Section Generic.
     destruct (String.eqb path "") eqn:E; [apply String.eqb_eq in E; contradiction|].
     rewrite Hr. reflexivity.
   Qed.
+  (* an error that was made out of an absorbed cyclic error (the error operator, a path walk)
+     carries the mark: a default that absorbs it yields a flagged value *)
+  Lemma spec_default_absorbs_marked l r sep root st path m1 e pe v m :
+    exp_s o dv l root st = Ok (path, m1) -> path <> ""%string ->
+    ref_eval_s o dv root st (parse_path path sep (p_maxIdx (eo_p o)) (p_numKeys (eo_p o)) (p_escape (eo_p o))) sep = Err e pe ->
+    cyc_err e pe = true ->
+    exp_s o dv r root st = Ok (v, m) ->
+    exp_s o dv (EDefault l r sep) root st = Ok (v, true).
+  Proof.
+    intros Hl Hn Hr Hc Hd. rewrite (spec_default_taken l r sep root st path m1 e pe Hl Hn Hr).
+    rewrite Hc, Hd. cbn [taint]. rewrite Bool.orb_true_r. reflexivity.
+  Qed.
+
+  (* the error operator over a re-entered reference: the failure it reports carries the mark *)
+  Lemma spec_error_operator_keeps_mark l r sep root st path m1 msg m3 :
+    exp_s o dv l root st = Ok (path, m1) -> path <> ""%string ->
+    ref_eval_s o dv root st (parse_path path sep (p_maxIdx (eo_p o)) (p_numKeys (eo_p o)) (p_escape (eo_p o))) sep = Err ECyclic "" ->
+    exp_s o dv r root st = Ok (msg, m3) ->
+    exists pe, exp_s o dv (EErr l r sep) root st = Err EOther pe /\ err_marked pe = true.
+  Proof.
+    intros Hl Hn Hr Hm. cbn [exp_s]. rewrite Hl.
+    destruct (String.eqb path "") eqn:E; [apply String.eqb_eq in E; contradiction|].
+    rewrite Hr, Hm. cbn [cyc_err is_cyc orb taint bind snd].
+    rewrite Bool.orb_true_r. cbn [orb taint]. eexists. split; [reflexivity|]. vm_compute. reflexivity.
+  Qed.
 End Generic.
 
 (** * the fuel of the specification evaluator is not part of its answer *)
@@ -233,9 +258,62 @@ Proof.
 Qed.
 
 (* the diamond and the repeated use of the demo tree of ProofsVarEval, by the specification *)
+(* a cycle that an outer default absorbs, with a member that turns the cyclic error into another
+   one: every setting evaluates, flagged (the per-call cache of the implementation may show) *)
+Definition masked_root : value :=
+  match normalize (eo_n demo_opts)
+          (GMap true [(KStr "a", GStr "${z}"); (KStr "z", GStr "${b:d}"); (KStr "b", GStr "${z:?boom}")]) with
+  | Ok v => v
+  | _ => VNil
+  end.
+
+Example spec_masked_cycle :
+  spec_string demo_opts 60 masked_root "a" (-1) = Ok ("d"%string, true)
+  /\ spec_string demo_opts 60 masked_root "b" (-1) = Ok ("d"%string, true)
+  /\ spec_string demo_opts 60 masked_root "z" (-1) = Ok ("d"%string, true).
+Proof. vm_compute. repeat split. Qed.
+
 Example spec_examples :
   spec_string demo_opts 60 demo_root "twice" (-1) = Ok ("x-x"%string, false)
   /\ spec_string demo_opts 60 demo_root "diamond" (-1) = Ok ("x1x2"%string, false)
   /\ spec_string demo_opts 60 demo_root "self" (-1) = Err ECyclic ""
   /\ spec_string demo_opts 60 demo_root "saved" (-1) = Ok ("dflt"%string, true).
 Proof. vm_compute. repeat split. Qed.
+
+(** * C20/C02: the name on the left of an operator is read like the name of a plain reference *)
+Section OperatorNames.
+  Variable o : eopts.
+  Variable dv : value -> stack -> string -> value -> SR loc.
+
+  (* the path an operator looks up is the path the parser builds for ${name} under the options
+     of the call: segment rules (indices, EnableNumKeys, EscapePath, MaxIdx) are the same *)
+  Lemma default_operator_reads_reference n r sep root st : n <> ""%string ->
+    exp_s o dv (EDefault (EConst n) r sep) root st
+    = match exp_s o dv (ERef (parse_path n sep (p_maxIdx (eo_p o)) (p_numKeys (eo_p o)) (p_escape (eo_p o))) sep) root st with
+      | Ok (v, m) => if String.eqb v "" then taint m (exp_s o dv r root st) else Ok (v, m)
+      | Err e p => taint (cyc_err e p) (exp_s o dv r root st)
+      | Panic => Panic
+      | OutOfModel => OutOfModel
+      end.
+  Proof.
+    intro Hn. cbn [exp_s]. destruct (String.eqb n "") eqn:E; [apply String.eqb_eq in E; contradiction|].
+    destruct (ref_eval_s o dv root st (parse_path n sep (p_maxIdx (eo_p o)) (p_numKeys (eo_p o)) (p_escape (eo_p o))) sep)
+      as [[v m]|e p| |]; cbn [orb]; reflexivity.
+  Qed.
+
+  Lemma error_operator_reads_reference n r sep root st : n <> ""%string ->
+    exp_s o dv (EErr (EConst n) r sep) root st
+    = match exp_s o dv (ERef (parse_path n sep (p_maxIdx (eo_p o)) (p_numKeys (eo_p o)) (p_escape (eo_p o))) sep) root st with
+      | Ok (v, m) => if String.eqb v ""
+                     then (y <- taint m (exp_s o dv r root st) ;; taint (snd y) (Err EOther "!raw"))
+                     else Ok (v, m)
+      | Err e p => (y <- taint (cyc_err e p) (exp_s o dv r root st) ;; taint (snd y) (Err EOther "!raw"))
+      | Panic => Panic
+      | OutOfModel => OutOfModel
+      end.
+  Proof.
+    intro Hn. cbn [exp_s]. destruct (String.eqb n "") eqn:E; [apply String.eqb_eq in E; contradiction|].
+    destruct (ref_eval_s o dv root st (parse_path n sep (p_maxIdx (eo_p o)) (p_numKeys (eo_p o)) (p_escape (eo_p o))) sep)
+      as [[v m]|e p| |]; cbn [orb]; reflexivity.
+  Qed.
+End OperatorNames.
